@@ -607,9 +607,52 @@ def packet_bodies_through_body_reader(ctx, P):
     ctx.floor(P + ':S17-4:body-reader:floor', 'call sites of Packet::from_reader', n, 1)
 
 
+def illegal_framing_stops_the_parser(ctx, P):
+    """When `PacketBodyReader::new` refuses the framing of a packet (partial length on a non-data packet, first chunk below 512) the
+    position of the next packet is unknown.  A packet iterator that is used again after that error (callers that skip `Err` items)
+    must not go on reading "headers" from inside the refused body: on the error edge of the constructor the parser is marked done."""
+    from rules.common import enum_switch_info, edge_variants
+    n = 0
+    for p, r in sorted(ctx.f.bodies.items()):
+        if 'packet::many::PacketParser' not in p or r.get('derived') or '::tests::' in p or r['kind'] == 'Closure':
+            continue
+        if r['nargs'] < 1 or not (r['locals'][1]['ty'] or '').startswith('&mut'):
+            continue
+        b = ctx.wrap(r)
+        cs = b.calls(r'packet_body::PacketBodyReader::<.*>::new$')
+        if not cs:
+            ctx.functions.discard(p)
+            continue
+        done_stores = set(i for i, k, st in b.stmts(lambda st: st['d']['pr'] and st['d']['pr'][-1].endswith('PacketParser.is_done')
+                                                    and st['r']['k'] == 'use' and 'k' in st['r']['o'][0] and st['r']['o'][0]['k'].get('v') == 1))
+        rets = set(b.returns())
+        for i, t in cs:
+            n += 1
+            res = t['d']['l']
+            starts = []
+            for j, tt in b.switches():
+                info = enum_switch_info(b, j)
+                if info is None or info[2]['l'] != res:
+                    continue
+                for tgt, _ in b.succ(j):
+                    vs = edge_variants(b, j, tgt) or []
+                    if 'Err' in vs and 'Ok' not in vs:
+                        starts.append(tgt)
+            leak = None
+            if starts:
+                pth = b.find_path(starts[0], rets, removed=frozenset(done_stores))
+                leak = pth
+            ok = bool(starts) and leak is None
+            ctx.check('%s:S17-2:illegal-framing-stops-parser:%s' % (P, p), 'R-dom', 'a framing refused by PacketBodyReader::new ends the packet iteration of %s' % p.split('::')[-1],
+                      ok, function=p, site=site(b, i),
+                      missing=None if ok else ('the error of PacketBodyReader::new is passed on without marking the parser done: the next call parses a header from inside the refused body'))
+    ctx.floor(P + ':S17-2:illegal-framing:floor', 'body reader constructions in the packet iterator', n, 2)
+
+
 def run(ctx):
     P = 'C17'
     partial_emitters(ctx, P)
+    illegal_framing_stops_the_parser(ctx, P)
     message_parser_consumes_bodies(ctx, P)
     packet_bodies_through_body_reader(ctx, P)
     running_offset_emitters(ctx, P)
